@@ -22,6 +22,10 @@ func runUnpack(cs string) string {
 	b := unhex(strings.TrimSpace(cs))
 	m, err := dnsmsg.UnpackMsg(b)
 	if err != nil {
+		// every caller logs the error it gets (zerolog's Err calls Error()): the error itself must be usable — an
+		// error value whose Error() panics kills the process as surely as a slice out of range (caught by the
+		// framework's recover: output `panic`)
+		_ = err.Error()
 		return "err"
 	}
 	defer dnsmsg.ReleaseMsg(m)
